@@ -26,6 +26,9 @@ META = {
                  "emulator against it (three-way with an independent python reference)",
 }
 REQUIRED = [
+    "write_x0_invisible", "bge_step", "bgeu_step", "jalr_link_and_target", "jal_misaligned_traps", "div_rem_identity_unsigned",
+    "div_overflow32", "aluW_low32", "addiw_sign_extended", "shiftW_sign_extended", "la_beq_compares_rj_rd", "la_w_sign_extended",
+    "la_bl_links_r1", "la_jirl_old_rj",
     "x0_reads_zero_after_step", "sub_eq_add_neg", "bge_taken_iff", "bgeu_taken_iff", "blt_taken_iff", "bltu_taken_iff",
     "beq_taken_iff", "bne_taken_iff", "mulhu_exact", "mulh_exact", "mulhsu_exact", "div_by_zero", "rem_by_zero",
     "div_overflow64", "div_rem_identity", "aluW_sign_extended", "load_signed_toInt", "load_unsigned_toNat",
@@ -412,7 +415,7 @@ def run(ctx):
             for ln in open(os.path.join(cdir, fn)):
                 ln = ln.strip()
                 if ln and not ln.startswith("#"):
-                    f = ln.split(" | ")
+                    f = [x.strip() for x in ln.split("|")]
                     g.cases.append({"line": f[0], "arch": f[0].split()[0], "mn": f[1], "cls": f[2], "ref": f[3] if len(f) > 3 and f[3] else None})
     gen_rv(g, 64)
     gen_rv(g, 32)
